@@ -135,9 +135,11 @@ ARN_FIELD_NAMES = ARN_FIELDS[6]
 
 def arn_field(arn, field):
     """The documented table: arn:partition:service:region:account-id:resource-id and
-    arn:partition:service:region:account-id:resource-type:resource-id.  UNSPEC for anything else
+    arn:partition:service:region:account-id:resource-type:resource-id (whose resource-id runs to the end of the text).  UNSPEC for anything else
     (other field counts, prefix other than 'arn', a field the shape does not have)."""
     prefix, *fields = arn.split(":")
+    if len(fields) > 6:
+        fields = fields[:5] + [":".join(fields[5:])]      # a resource-id may itself contain ':' (log groups, aliases): it is the rest of the text
     if prefix != "arn" or len(fields) not in ARN_FIELDS:
         return UNSPEC
     names = ARN_FIELDS[len(fields)]
@@ -151,7 +153,7 @@ def context_model(history):
     """history: list of (kind, filter name), kind in ok / celerr / hostraise.  The context is a
     single slot: None between evaluations, the evaluation's own filter during it.
     Returns per step (before, during, after, outcome)."""
-    out = {"ok": "value", "celerr": "E", "hostraise": "X:RuntimeError"}
+    out = {"ok": "value", "celerr": "E", "hostraise": "X:RuntimeError", "nested": "value"}
     slot = "None"
     steps = []
     for kind, fname in history:
